@@ -487,7 +487,7 @@ PROPS["C16"] = {
     "level_text": "Proved in Lean for P-256, P-384, P-521 and secp256k1 with their concrete field primes and coefficients: every on-curve point converts to a JWK with kty EC and the curve's "
                   "name whose coordinates decode to exactly the curve's width (leading zeros preserved), and reading that JWK back yields the same curve and point; a JWK is read only if "
                   "the curve is one of the four, both coordinates are present with exactly that width and the point satisfies the curve equation; the encoding is a function of the key "
-                  "alone. Ed25519: the 32-byte key round-trips and only 32-byte x values are accepted (whether the 32 bytes are a valid point is not part of the library's check).",
+                  "alone. Ed25519: a 32-byte key that encodes a point of edwards25519 round-trips, and both readers (GetED25519PublicKey and the exported JWK.UnmarshalJSON) accept an x only if it decodes to exactly 32 bytes that encode a point (y below the field prime, x^2 a square; the arithmetic is the model's own, validated by the stream).",
     "level_note": "Trusted: Lean kernel (incl. `decide +kernel` for the four prime-width facts); extractor; harness. go-jose's EC handling is modelled, not verified; the stream validates it.",
 }
 
@@ -864,6 +864,12 @@ def _c20_property(r):
         return "stress/data-race"
     if imp.get("class") in ("killed", "panic"):
         return "stress/" + imp["class"]
+    if imp.get("mismatch"):
+        return "stress/concurrent-answer-differs"
+    if imp.get("derived_state_changed"):
+        return "stress/derived-models/shared-state-written"
+    if imp.get("derived_mismatch"):
+        return "stress/derived-models/answer-differs"
     return None
 
 
@@ -871,7 +877,9 @@ PROPS["C20"] = {
     "theorem_modules": ["Sidetree.Props.C20"],
     "prescribes": "Sidetree.Conc (lock exclusion; registries as atomic operations) and the components as functions of their arguments",
     "obligations": [{"name": "Shape_Conc", "facts": "module:Conc"}, {"name": "Shape_Transformer", "facts": "module:Transformer"}, {"name": "Shape_Composer", "facts": "module:Composer"},
-                    {"name": "Shape_Did", "facts": "module:Did"}] + _PARSER_OBL + _APPLIER_OBL,
+                    {"name": "Shape_Did", "facts": "module:Did"},
+                    {"name": "C20_effects", "facts": ["prog_Metadata", "inputs_Metadata", "prog_DocTransform", "inputs_DocTransform", "prog_DidTransform", "inputs_DidTransform"]}]
+                   + _PARSER_OBL + _APPLIER_OBL,
     "streams": [{"gen": "C20", "quick": 6, "thorough": 300}],
     "race": True,
     "property_check": _c20_property,
@@ -883,7 +891,11 @@ PROPS["C20"] = {
     "rule": "each case: ~160 lines drawn from the parse, apply, compose (validated and hostile), transform, resolve / process, VDR create+read, client lifecycle, patch validation and JWS "
             "streams are answered once sequentially and then by 8-16 goroutines at once (each in its own order) against one shared parser, applier, composer, transformer, document "
             "handler and VDR per configuration; every concurrent answer must equal the sequential one. Then 8-16 goroutines add and look up 8 namespaces in one namespace provider, and "
-            "for 30 rounds register the same 3-5 versions in one client registry all at once (exactly one registration of each version may succeed) while looking them up. The harness "
+            "for 30 rounds register the same 3-5 versions in one client registry all at once (exactly one registration of each version may succeed) while looking them up. Derived models: "
+            "for up to 16 (state, operation) pairs taken from the apply lines (up to 8 of them updates that do not take, whose result keeps the state's document), the state is given "
+            "40 published and 12 unpublished operations in store order, 8-16 goroutines each apply an operation of their own (own canonical reference) to that ONE state and transform "
+            "what they get back with the DID transformer and the generic transformer, operation lists included; every answer must equal the one obtained on a state of its own, and "
+            "the shared state must come out as it went in. The harness "
             "binary is built with -race; every case runs in its own process and a race report is a violation.",
     "technique": "Lean 4 theorems (readers/writer lock exclusion invariant; properties of every interleaving of atomic registry operations) + go/ast obligations (lock calls around every "
                  "use of the guarded maps; no assignment through a receiver or to a package-level variable in the shared components) + concurrent-vs-sequential differential under the "
@@ -896,7 +908,9 @@ PROPS["C20"] = {
                   "(writer_runs_alone: while a goroutine is inside one, every step of the system is its own) and the map does not change while anybody is inside a read section "
                   "(reader_sees_constant_map), both for every reachable state. That every Go method touching the guarded maps is one "
                   "critical section of the right kind, and that no other shared component assigns through its receiver or to a package-level variable, are facts regenerated from the "
-                  "Go AST on every run.",
+                  "Go AST on every run. The transformers get resolution models that share operation lists and documents with the state they were derived from (the applier hands them on): "
+                  "effect summaries of metadata.CreateDocumentMetadata and of both TransformDocument functions, regenerated from the Go AST, pass the analysis of Sidetree.Effects "
+                  "(C20_effects_*), whose soundness theorem (disciplined_sound) says such a function writes to no object that existed on entry - neither the model nor anything reachable from it.",
     "level_note": "partial: the Go memory model, sync.RWMutex itself and the scheduler are not modelled; 'no execution contains a data race' is established for the executions the stress "
                   "run explores under the race detector, not proved. Trusted: Lean kernel; extractor; harness; the race detector.",
 }
